@@ -20,7 +20,8 @@ EXTENDS Integers, Sequences, FiniteSets, TLC
 Num(n)  == [k |-> "num", n |-> n]
 Eps(n)  == [k |-> "eps", n |-> n]
 Frac(n) == [k |-> "frac", n |-> n]
-Str(s, len, ascii) == [k |-> "str", s |-> s, len |-> len, ascii |-> ascii]
+\* b64: number of bytes the text denotes as base64, -1 if it is no valid base64 text
+Str(s, len, ascii, b64) == [k |-> "str", s |-> s, len |-> len, ascii |-> ascii, b64 |-> b64]
 Bool(b) == [k |-> "bool", b |-> b]
 Null    == [k |-> "null"]
 List(xs) == [k |-> "list", xs |-> xs]
@@ -46,6 +47,8 @@ BV == WT \cup RE                          \* the property does not say which bad
 (* datainfo:  [t |-> "double"|"int", lo, hi]  [t |-> "enum", mem |-> <<[name, val]>>]    *)
 (*  [t |-> "string", minc, maxc, utf8]  [t |-> "bool"]  [t |-> "array", el, minlen,      *)
 (*  maxlen]  [t |-> "tuple", els]  [t |-> "struct", mem |-> <<[name, dt]>>, opt |-> <<>>] *)
+(*  [t |-> "scaled", lo, hi] (lo, hi and the abstract values are the transported integers)  *)
+(*  [t |-> "blob", minb, maxb]  [t |-> "limits", el] (an ordered pair, <p>_limits)          *)
 (*  [t |-> "other"] (not modelled: every outcome allowed)                                 *)
 
 MemberNames(dt) == {dt.mem[i].name : i \in 1 .. Len(dt.mem)}
@@ -64,7 +67,7 @@ Validate(dt, p, prev) ==
          ELSE IF 4 * dt.lo <= Key(p) /\ Key(p) <= 4 * dt.hi THEN Ok(p)
          ELSE IF p = Eps(dt.hi) THEN Ok(Num(dt.hi))        \* inside the tolerance: clamped
          ELSE Bad(RE)
-    [] dt.t = "int" ->
+    [] dt.t \in {"int", "scaled"} ->
          IF p.k = "num" THEN (IF dt.lo <= p.n /\ p.n <= dt.hi THEN Ok(p) ELSE Bad(RE))
          ELSE IF IsNumber(p) THEN Bad(BV)                   \* a fraction is no integer
          ELSE Bad(WT)
@@ -84,6 +87,20 @@ Validate(dt, p, prev) ==
          ELSE Ok(p)
     [] dt.t = "bool" ->
          IF p.k = "bool" THEN Ok(p) ELSE Bad(BV)
+    [] dt.t = "blob" ->
+         IF p.k # "str" THEN Bad(WT)
+         ELSE IF p.b64 < 0 THEN Bad(BV)                     \* no base64 text
+         ELSE IF p.b64 < dt.minb \/ p.b64 > dt.maxb THEN Bad(RE)
+         ELSE Ok(p)
+    [] dt.t = "limits" ->
+         IF p.k # "list" THEN Bad(WT)
+         ELSE IF Len(p.xs) # 2 THEN Bad(BV)
+         ELSE LET r1 == Validate(dt.el, p.xs[1], Null)
+                  r2 == Validate(dt.el, p.xs[2], Null)
+                  errs == (IF r1.ok THEN {} ELSE r1.cls) \cup (IF r2.ok THEN {} ELSE r2.cls)
+              IN IF errs # {} THEN Bad(errs)
+                 ELSE IF Key(r2.v) < Key(r1.v) THEN Bad(RE)  \* an inverted pair is no limit
+                 ELSE Ok(List(<<r1.v, r2.v>>))
     [] dt.t = "array" ->
          IF p.k # "list" THEN Bad(WT)
          ELSE LET n == Len(p.xs)
@@ -122,7 +139,10 @@ Validate(dt, p, prev) ==
 RECURSIVE InDatainfo(_, _)
 InDatainfo(dt, v) ==
   CASE dt.t = "double" -> IsNumber(v) /\ 4 * dt.lo <= Key(v) /\ Key(v) <= 4 * dt.hi
-    [] dt.t = "int"    -> v.k = "num" /\ dt.lo <= v.n /\ v.n <= dt.hi
+    [] dt.t \in {"int", "scaled"} -> v.k = "num" /\ dt.lo <= v.n /\ v.n <= dt.hi
+    [] dt.t = "blob"   -> v.k = "str" /\ v.b64 >= dt.minb /\ v.b64 <= dt.maxb
+    [] dt.t = "limits" -> v.k = "list" /\ Len(v.xs) = 2 /\ InDatainfo(dt.el, v.xs[1]) /\ InDatainfo(dt.el, v.xs[2])
+                          /\ Key(v.xs[1]) <= Key(v.xs[2])
     [] dt.t = "enum"   -> v.k = "num" /\ v.n \in {dt.mem[i].val : i \in 1 .. Len(dt.mem)}
     [] dt.t = "string" -> v.k = "str" /\ dt.minc <= v.len /\ v.len <= dt.maxc /\ (dt.utf8 \/ v.ascii)
     [] dt.t = "bool"   -> v.k = "bool"
@@ -139,9 +159,11 @@ InDatainfo(dt, v) ==
 (* a different number; enum names denote their code; omitted members come from prev)       *)
 RECURSIVE Denotes(_, _, _, _)
 Denotes(dt, p, prev, v) ==
-  CASE dt.t \in {"double", "int"} -> v = p \/ (dt.t = "double" /\ p = Eps(dt.hi) /\ v = Num(dt.hi))
+  CASE dt.t \in {"double", "int", "scaled"} -> v = p \/ (dt.t = "double" /\ p = Eps(dt.hi) /\ v = Num(dt.hi))
     [] dt.t = "enum" -> v = p \/ (p.k = "str" /\ \E i \in 1 .. Len(dt.mem) : dt.mem[i].name = p.s /\ v = Num(dt.mem[i].val))
-    [] dt.t \in {"string", "bool"} -> v = p
+    [] dt.t \in {"string", "bool", "blob"} -> v = p
+    [] dt.t = "limits" -> p.k = "list" /\ v.k = "list" /\ Len(v.xs) = 2 /\ Len(p.xs) = 2
+                          /\ \A i \in 1 .. 2 : Denotes(dt.el, p.xs[i], Null, v.xs[i])
     [] dt.t = "array" -> p.k = "list" /\ v.k = "list" /\ Len(v.xs) = Len(p.xs)
                          /\ \A i \in 1 .. Len(p.xs) : Denotes(dt.el, p.xs[i], Null, v.xs[i])
     [] dt.t = "tuple" -> p.k = "list" /\ v.k = "list" /\ Len(v.xs) = Len(p.xs) /\ Len(p.xs) = Len(dt.els)
@@ -159,7 +181,8 @@ Denotes(dt, p, prev, v) ==
 (*   parameter: [kind |-> "param", wire, dt, ro, const (value or Null), init,            *)
 (*               lim |-> [kind |-> "none"] | [kind |-> "minmax", lo, hi (attribute names *)
 (*               or "")] | [kind |-> "limits", both], hooks |-> <<hook>> (MRO order),    *)
-(*               drv |-> "absent"|"none"|"same"|"fixed", ret]                            *)
+(*               drv |-> "absent"|"none"|"same"|"fixed"|"raise", ret,                    *)
+(*               rd |-> "absent"|"fixed" (a read function that returns rret), rret]      *)
 (*   hook: [at |-> "LIMIT"] (the automatic limit check, at the class defining the limit  *)
 (*         parameters) or [at |-> class, raise |-> <<values>>, stop |-> <<values>>]       *)
 (*   command:   [kind |-> "cmd", wire, arg (datainfo or [t |-> "none"]), ret (value or Null)] *)
@@ -177,10 +200,14 @@ Params(m) == {a \in DOMAIN shape[m] : IsParam(m, a) /\ shape[m][a].const = Null}
 AccClass(act) == IF act = "do" THEN "NoSuchCommand" ELSE "NoSuchParameter"
 Wanted(act) == IF act = "do" THEN "cmd" ELSE "param"
 
+(* a specifier that names only the module ("change m 5", "read m") addresses the module's *)
+(* main accessible: target for change, value for read (req.name = "")                      *)
+WireOf(req) == IF req.name # "" THEN req.name ELSE IF req.act = "change" THEN "target" ELSE "value"
+
 (* exported-name lookup: only wire names of exported accessibles of exported modules exist *)
 Target(req) ==
   IF req.mod \notin DOMAIN shape THEN Bad({"NoSuchModule", AccClass(req.act)})
-  ELSE LET as == {a \in DOMAIN shape[req.mod] : shape[req.mod][a].wire = req.name /\ req.name # ""}
+  ELSE LET as == {a \in DOMAIN shape[req.mod] : shape[req.mod][a].wire = WireOf(req)}
        IN IF as = {} THEN Bad({AccClass(req.act)})
           ELSE LET a == CHOOSE x \in as : TRUE
                IN IF shape[req.mod][a].kind # Wanted(req.act) THEN Bad({AccClass(req.act)}) ELSE Ok(a)
@@ -207,6 +234,7 @@ Chain(hooks, i, v, lim) ==
        ELSE Chain(hooks, i + 1, v, lim)
 
 NoCalls == <<>>
+Call(op, fn, arg) == [op |-> op, fn |-> fn, arg |-> arg]     \* op: "write" | "cmd" | "read"
 Outcome(req, reply, calls, hookarg, upd) ==
   [req |-> req, reply |-> reply, calls |-> calls, hookarg |-> hookarg, upd |-> upd]
 Refused(req, classes) == Outcome(req, Bad(classes), NoCalls, Null, Null)
@@ -227,8 +255,12 @@ ChangeRes(c, req) ==
                ELSE IF Chain(acc.hooks, 1, r.v, Limits(c, m, acc)) = "raise"
                     THEN \* hooks may have been called, each with the validated value; nothing else happened
                          Res(Outcome(req, Bad(RE), NoCalls, r.v, Null), c)
+               ELSE IF acc.drv = "raise"
+                    THEN \* the hardware refuses: the driver was called (once, with the validated value) and the
+                         \* client learns the driver's error; nothing is cached, nothing announced
+                         Res(Outcome(req, Bad({"HardwareError"}), <<Call("write", a, r.v)>>, r.v, Null), c)
                ELSE LET new == IF acc.drv = "fixed" THEN acc.ret ELSE r.v
-                        calls == IF acc.drv = "absent" THEN NoCalls ELSE <<[fn |-> a, arg |-> r.v]>>
+                        calls == IF acc.drv = "absent" THEN NoCalls ELSE <<Call("write", a, r.v)>>
                     IN Res(Outcome(req, Ok(new), calls, r.v, [mod |-> m, name |-> acc.wire, v |-> new]),
                            [c EXCEPT ![m][a] = new])
 
@@ -240,19 +272,26 @@ DoRes(c, req) ==
            acc == shape[req.mod][a]
        IN IF acc.arg = NoDt
           THEN IF req.payload # Null THEN Res(Refused(req, WT), c)
-               ELSE Res(Outcome(req, Ok(acc.ret), <<[fn |-> a, arg |-> Null]>>, Null, Null), c)
+               ELSE Res(Outcome(req, Ok(acc.ret), <<Call("cmd", a, Null)>>, Null, Null), c)
           ELSE IF req.payload = Null THEN Res(Refused(req, WT), c)
                ELSE LET r == Validate(acc.arg, req.payload, Null) IN
                     IF ~r.ok THEN Res(Refused(req, r.cls), c)
-                    ELSE Res(Outcome(req, Ok(acc.ret), <<[fn |-> a, arg |-> r.v]>>, Null, Null), c)
+                    ELSE Res(Outcome(req, Ok(acc.ret), <<Call("cmd", a, r.v)>>, Null, Null), c)
 
-(* ---- read ---- (parameters of the generated modules have no read function: a read     *)
-(* returns the cache; a constant reads as its constant)                                   *)
+(* ---- read ---- a constant reads as its constant; a parameter without read function     *)
+(* reads as the cache; a read function is called once, what it returns is cached,          *)
+(* announced and replied                                                                   *)
 ReadRes(c, req) ==
   LET tg == Target(req) IN
   IF ~tg.ok THEN Res(Refused(req, tg.cls), c)
-  ELSE LET acc == shape[req.mod][tg.v]
-       IN Res(Outcome(req, Ok(IF acc.const # Null THEN acc.const ELSE c[req.mod][tg.v]), NoCalls, Null, Null), c)
+  ELSE LET m == req.mod
+           a == tg.v
+           acc == shape[m][a]
+       IN IF acc.const # Null THEN Res(Outcome(req, Ok(acc.const), NoCalls, Null, Null), c)
+          ELSE IF acc.rd = "fixed"
+               THEN Res(Outcome(req, Ok(acc.rret), <<Call("read", a, Null)>>, Null, [mod |-> m, name |-> acc.wire, v |-> acc.rret]),
+                        [c EXCEPT ![m][a] = acc.rret])
+          ELSE Res(Outcome(req, Ok(c[m][a]), NoCalls, Null, Null), c)
 
 Result(c, req) ==
   CASE req.act = "change" -> ChangeRes(c, req)
@@ -277,9 +316,9 @@ InitWith(sh) == /\ shape = sh
 
 ReqParam(req) == \* the addressed parameter exists and is exported
   /\ req.mod \in DOMAIN shape
-  /\ \E a \in DOMAIN shape[req.mod] : shape[req.mod][a].wire = req.name /\ req.name # "" /\ shape[req.mod][a].kind = "param"
-AccOf(req) == shape[req.mod][CHOOSE a \in DOMAIN shape[req.mod] : shape[req.mod][a].wire = req.name]
-AttrOf(req) == CHOOSE a \in DOMAIN shape[req.mod] : shape[req.mod][a].wire = req.name
+  /\ \E a \in DOMAIN shape[req.mod] : shape[req.mod][a].wire = WireOf(req) /\ shape[req.mod][a].kind = "param"
+AccOf(req) == shape[req.mod][CHOOSE a \in DOMAIN shape[req.mod] : shape[req.mod][a].wire = WireOf(req)]
+AttrOf(req) == CHOOSE a \in DOMAIN shape[req.mod] : shape[req.mod][a].wire = WireOf(req)
 
 (* hooks that the value has to get past: none of the hooks before the first stopping one raises *)
 HooksAccept(acc, v, lim) ==
@@ -290,14 +329,15 @@ HooksAccept(acc, v, lim) ==
 (* C04, first sentence: the driver is invoked only if everything holds, then exactly once *)
 (* and with exactly the validated value                                                   *)
 DriverOnlyIfAllowed ==
-  [][ last'.calls # NoCalls =>
+  [][ (last'.calls # NoCalls /\ ~(last'.req.act = "read" /\ last'.calls = <<Call("read", last'.calls[1].fn, Null)>>)) =>
         LET req == last'.req IN
         /\ Len(last'.calls) = 1
         /\ req.act \in {"change", "do"}
+        /\ last'.calls[1].op = (IF req.act = "change" THEN "write" ELSE "cmd")
         /\ req.mod \in DOMAIN shape
         /\ \E a \in DOMAIN shape[req.mod] :
              LET acc == shape[req.mod][a] IN
-             /\ acc.wire = req.name /\ acc.wire # ""
+             /\ acc.wire = WireOf(req) /\ acc.wire # ""
              /\ last'.calls[1].fn = a
              /\ IF req.act = "change"
                 THEN /\ acc.kind = "param" /\ ~acc.ro /\ acc.const = Null
@@ -314,23 +354,26 @@ DriverOnlyIfAllowed ==
 (* hardware untouched, no update                                                          *)
 Fitting(req) ==
   IF req.mod \notin DOMAIN shape THEN {"NoSuchModule", "NoSuchParameter", "NoSuchCommand"}
-  ELSE IF ~\E a \in DOMAIN shape[req.mod] : shape[req.mod][a].wire = req.name /\ req.name # ""
+  ELSE IF ~\E a \in DOMAIN shape[req.mod] : shape[req.mod][a].wire = WireOf(req) /\ shape[req.mod][a].wire # ""
                                            /\ shape[req.mod][a].kind = Wanted(req.act)
        THEN {"NoSuchParameter", "NoSuchCommand"}
   ELSE IF req.act = "change" /\ (AccOf(req).ro \/ AccOf(req).const # Null) THEN {"ReadOnly"}
   ELSE BV
+DriverFails(req) == req.act = "change" /\ ReqParam(req) /\ AccOf(req).drv = "raise"
 ErrorLeavesNoTrace ==
   [][ ~last'.reply.ok =>
         /\ cache' = cache
-        /\ last'.calls = NoCalls
         /\ last'.upd = Null
-        /\ last'.reply.cls # {} /\ last'.reply.cls \subseteq Fitting(last'.req)
+        /\ \/ last'.calls = NoCalls
+           \/ DriverFails(last'.req) /\ Len(last'.calls) = 1 /\ last'.reply.cls = {"HardwareError"}
+        /\ last'.reply.cls # {}
+        /\ last'.calls = NoCalls => last'.reply.cls \subseteq Fitting(last'.req)
     ]_vars
 
 (* a request that satisfies every precondition is not refused *)
 ValidIsServed ==
   [][ LET req == last'.req IN
-      (req.act = "change" /\ ReqParam(req) /\ ~AccOf(req).ro /\ AccOf(req).const = Null
+      (req.act = "change" /\ ReqParam(req) /\ ~AccOf(req).ro /\ AccOf(req).const = Null /\ AccOf(req).drv # "raise"
           /\ Validate(AccOf(req).dt, req.payload, cache[req.mod][AttrOf(req)]).ok
           /\ HooksAccept(AccOf(req), Validate(AccOf(req).dt, req.payload, cache[req.mod][AttrOf(req)]).v,
                          Limits(cache, req.mod, AccOf(req))))
@@ -343,7 +386,9 @@ ValidIsServed ==
 CacheInDatainfo == \A m \in DOMAIN shape : \A a \in Params(m) : InDatainfo(shape[m][a].dt, cache[m][a])
 Frame ==
   [][ \A m \in DOMAIN shape : \A a \in Params(m) :
-        cache'[m][a] # cache[m][a] => last'.req.act = "change" /\ last'.req.mod = m /\ shape[m][a].wire = last'.req.name
+        cache'[m][a] # cache[m][a] => /\ last'.req.act \in {"change", "read"} /\ last'.req.mod = m
+                                       /\ shape[m][a].wire = WireOf(last'.req)
+                                       /\ last'.req.act = "read" => shape[m][a].rd # "absent"
     ]_vars
 
 (* ------------------------------------------------------------------------------------ *)
@@ -355,14 +400,19 @@ DTe == [t |-> "enum", mem |-> <<[name |-> "a", val |-> 1], [name |-> "b", val |-
 DTs == [t |-> "string", minc |-> 0, maxc |-> 3, utf8 |-> FALSE]
 DTst == [t |-> "struct", mem |-> <<[name |-> "x", dt |-> DTf], [name |-> "y", dt |-> DTi]>>, opt |-> <<"y">>]
 DTa == [t |-> "array", el |-> DTi, minlen |-> 0, maxlen |-> 3]
-DTname == [f |-> DTf, i |-> DTi, e |-> DTe, s |-> DTs, st |-> DTst, a |-> DTa]
+DTb == [t |-> "bool"]
+DTsc == [t |-> "scaled", lo |-> 0, hi |-> 8]          \* gamma: ScaledInteger(0.5, 0, 4); values are the transported integers
+DTbl == [t |-> "blob", minb |-> 1, maxb |-> 3]
+DTname == [f |-> DTf, i |-> DTi, e |-> DTe, s |-> DTs, st |-> DTst, a |-> DTa, b |-> DTb, sc |-> DTsc, bl |-> DTbl]
 DTp(dt) == [t |-> "tuple", els |-> <<dt, dt>>]
+DTl(dt) == [t |-> "limits", el |-> dt]
 
-SAb == Str("ab", 2, TRUE)
-SXyz == Str("xyz", 3, TRUE)
-SLong == Str("toolong", 7, TRUE)
-SUni == Str("nonascii", 2, FALSE)
-SName(n) == Str(n, Len(n), TRUE)
+SAb == Str("ab", 2, TRUE, -1)
+SXyz == Str("xyz", 3, TRUE, -1)
+SLong == Str("toolong", 7, TRUE, -1)
+SUni == Str("nonascii", 2, FALSE, -1)
+SName(n) == Str(n, Len(n), TRUE, -1)
+SB(n) == Str(<<"b64_0", "b64_1", "b64_2", "b64_3", "b64_4">>[n + 1], <<0, 4, 4, 4, 8>>[n + 1], TRUE, n)   \* base64 text of n bytes
 St(x, y) == Obj(<<KV("x", x), KV("y", y)>>)
 StX(x) == Obj(<<KV("x", x)>>)
 
@@ -371,8 +421,12 @@ StX(x) == Obj(<<KV("x", x)>>)
 Cat(dt) ==
   CASE dt.t = "double" -> {Num(dt.lo - 1), Num(dt.lo), Num(3), Num(5), Num(dt.hi), Num(dt.hi + 1),
                            Eps(dt.hi), Frac(2), SAb, Null, List(<<Num(1)>>)}
-    [] dt.t = "int" -> {Num(dt.lo - 1), Num(dt.lo), Num(3), Num(5), Num(dt.hi), Num(dt.hi + 1),
+    [] dt.t \in {"int", "scaled"} -> {Num(dt.lo - 1), Num(dt.lo), Num(3), Num(5), Num(dt.hi), Num(dt.hi + 1),
                         Frac(2), SAb, Null, List(<<Num(1)>>)}
+    [] dt.t = "bool" -> {Bool(TRUE), Bool(FALSE), Num(3), SAb, Null, List(<<Bool(TRUE)>>)}
+    [] dt.t = "blob" -> {SB(1), SB(2), SB(3), SB(0), SB(4), SAb, Num(1), Null, List(<<SB(2)>>)}
+    [] dt.t = "limits" -> {List(<<Num(2), Num(5)>>), List(<<Num(0), Num(3)>>), List(<<Num(5), Num(2)>>), List(<<Num(2)>>),
+                           Num(1), List(<<Num(2), Num(9)>>), List(<<Num(3), Num(3)>>)}
     [] dt.t = "enum" -> {Num(1), Num(2), Num(3), SName("a"), SName("c"), SName("zz"), Null, List(<<Num(1)>>)}
     [] dt.t = "string" -> {SAb, SXyz, SLong, SUni, Num(1), Null, List(<<SAb>>)}
     [] dt.t = "struct" -> {St(Num(3), Num(2)), St(Num(5), Num(4)), StX(Num(5)), StX(Num(0)),
@@ -385,25 +439,30 @@ Cat(dt) ==
     [] dt.t = "tuple" -> {List(<<Num(2), Num(5)>>), List(<<Num(0), Num(3)>>), List(<<Num(2)>>), Num(1),
                           List(<<Num(2), Num(9)>>)}
 Short(dt) == \* two payloads for accessibles where the payload should not matter
-  CASE dt.t = "double" -> {Num(3), SAb} [] dt.t = "int" -> {Num(3), SAb} [] dt.t = "enum" -> {Num(2), Null}
+  CASE dt.t = "double" -> {Num(3), SAb} [] dt.t \in {"int", "scaled"} -> {Num(3), SAb} [] dt.t = "enum" -> {Num(2), Null}
+    [] dt.t = "bool" -> {Bool(TRUE), SAb} [] dt.t = "blob" -> {SB(2), Num(1)} [] dt.t = "limits" -> {List(<<Num(2), Num(5)>>)}
     [] dt.t = "string" -> {SAb, Num(1)} [] dt.t = "struct" -> {St(Num(3), Num(2)), Num(1)}
     [] dt.t = "array" -> {List(<<Num(1)>>), Num(1)} [] dt.t = "tuple" -> {List(<<Num(2), Num(5)>>)}
 LimCat == {Num(2), Num(5), Num(9), SAb}
 
-InitOf(dt) == CASE dt.t \in {"double", "int"} -> Num(3) [] dt.t = "enum" -> Num(1) [] dt.t = "string" -> SAb
+InitOf(dt) == CASE dt.t \in {"double", "int", "scaled"} -> Num(3) [] dt.t = "enum" -> Num(1) [] dt.t = "string" -> SAb
+                [] dt.t = "bool" -> Bool(FALSE) [] dt.t = "blob" -> SB(2)
                 [] dt.t = "struct" -> St(Num(3), Num(2)) [] dt.t = "array" -> List(<<Num(1)>>)
-OtherOf(dt) == CASE dt.t \in {"double", "int"} -> Num(5) [] dt.t = "enum" -> Num(2) [] dt.t = "string" -> SXyz
+OtherOf(dt) == CASE dt.t \in {"double", "int", "scaled"} -> Num(5) [] dt.t = "enum" -> Num(2) [] dt.t = "string" -> SXyz
+                [] dt.t = "bool" -> Bool(TRUE) [] dt.t = "blob" -> SB(3)
                 [] dt.t = "struct" -> St(Num(5), Num(4)) [] dt.t = "array" -> List(<<Num(2), Num(3)>>)
 
 NoLim == [kind |-> "none"]
 Par(wire, dt, ro, const, lim, hooks, drv) ==
   [kind |-> "param", wire |-> wire, dt |-> dt, ro |-> ro, const |-> const, init |-> InitOf(dt),
-   lim |-> lim, hooks |-> hooks, drv |-> drv, ret |-> OtherOf(dt), islimit |-> FALSE, level |-> "X"]
+   lim |-> lim, hooks |-> hooks, drv |-> drv, ret |-> OtherOf(dt), rd |-> "absent", rret |-> OtherOf(dt),
+   islimit |-> FALSE, level |-> "X"]
 \* level: the class of the hierarchy that defines the limit parameter(s) (only gamma reads it)
 ParL(wire, dt, ro, const, lim, hooks, drv, lv) == [Par(wire, dt, ro, const, lim, hooks, drv) EXCEPT !.level = lv]
 LimPar(wire, dt, init, lv) ==
   [kind |-> "param", wire |-> wire, dt |-> dt, ro |-> FALSE, const |-> Null, init |-> init,
-   lim |-> NoLim, hooks |-> <<>>, drv |-> "absent", ret |-> Null, islimit |-> TRUE, level |-> lv]
+   lim |-> NoLim, hooks |-> <<>>, drv |-> "absent", ret |-> Null, rd |-> "absent", rret |-> Null,
+   islimit |-> TRUE, level |-> lv]
 Cmd(wire, arg, ret) == [kind |-> "cmd", wire |-> wire, arg |-> arg, ret |-> ret]
 
 (* A: access flags and export modes x datatype, commands with an argument of the datatype *)
@@ -411,7 +470,9 @@ ShapeA(d) == LET dt == DTname[d] IN
   [m |-> [pa |-> Par("_pa", dt, FALSE, Null, NoLim, <<>>, "none"),
           pc |-> Par("cust", dt, FALSE, Null, NoLim, <<>>, "same"),
           pr |-> Par("_pr", dt, TRUE, Null, NoLim, <<>>, "none"),
-          pk |-> Par("_pk", dt, TRUE, OtherOf(dt), NoLim, <<>>, "none"),
+          \* (a constant whose transported form differs from the internal one has a shape of its own: K)
+          pk |-> IF d \in {"sc", "bl"} THEN Par("_pk", dt, TRUE, Null, NoLim, <<>>, "none")
+                 ELSE Par("_pk", dt, TRUE, OtherOf(dt), NoLim, <<>>, "none"),
           ph |-> Par("", dt, FALSE, Null, NoLim, <<>>, "none"),
           ca |-> Cmd("_ca", dt, Null),
           go |-> Cmd("go", NoDt, Null),
@@ -449,18 +510,51 @@ ShapeC(d, lk, h, drv, lv) == LET dt == DTname[d] IN
                target_max |-> LimPar("target_max", dt, Num(dt.hi), lv)]]
   ELSE IF lk = "limits"
   THEN [m |-> [pa |-> ParL("_pa", dt, FALSE, Null, [kind |-> "limits", both |-> "pa_limits"], HookSets[h], drv, lv),
-               pa_limits |-> LimPar("_pa_limits", DTp(dt), List(<<Num(dt.lo), Num(dt.hi)>>), lv)]]
+               pa_limits |-> LimPar("_pa_limits", DTl(dt), List(<<Num(dt.lo), Num(dt.hi)>>), lv)]]
   ELSE [m |-> [target |-> ParL("target", dt, FALSE, Null, [kind |-> "minmax", lo |-> "", hi |-> "target_max"], HookSets[h], drv, lv),
                target_max |-> LimPar("target_max", dt, Num(dt.hi), lv)]]
+(* E: what only gamma varies (the spec sees the final accessible), plus failing drivers, read *)
+(* functions, tuple / bool arguments and the default accessibles of a bare module specifier. *)
+(*   cls: what the CLASS says where the final accessible differs, via: the difference comes   *)
+(*   from the configuration ("cfg") or from a re-declaration in a subclass ("subclass");      *)
+(*   initvia: the start value is a default, a Parameter(value=..), a bare value assigned in a *)
+(*   subclass, or a value / default given in the configuration                                 *)
+DTf5 == [t |-> "double", lo |-> 0, hi |-> 5]
+ShapeE(n) ==
+  IF n = 1
+  THEN [m |-> [target |-> Par("target", DTf, FALSE, Null, NoLim, <<>>, "raise"),
+               value |-> [Par("value", DTi, TRUE, Null, NoLim, <<>>, "none") EXCEPT !.rd = "fixed"],
+               pa |-> [Par("_pa", DTe, FALSE, Null, NoLim, <<>>, "none") EXCEPT !.rd = "fixed"],
+               ct |-> Cmd("_ct", [t |-> "tuple", els |-> <<DTf, DTe>>], Null),
+               cb |-> Cmd("_cb", DTb, Num(3))]]
+  ELSE IF n = 2
+  THEN [m |-> [target |-> Par("target", DTf5, FALSE, Null, [kind |-> "minmax", lo |-> "", hi |-> "target_max"], <<[at |-> "LIMIT"]>>, "none")
+                           @@ [cls |-> [hi |-> 8], via |-> "cfg"],
+               target_max |-> LimPar("target_max", DTf5, Num(4), "X") @@ [initvia |-> "cfgvalue"],
+               pa |-> Par("_pa", DTi, TRUE, Null, NoLim, <<>>, "none") @@ [cls |-> [ro |-> FALSE], via |-> "subclass"]]]
+  ELSE IF n = 3
+  THEN [m |-> [pb |-> Par("renamed", DTi, FALSE, Null, NoLim, <<>>, "same") @@ [cls |-> [wire |-> "_pb"], via |-> "cfg"],
+               pc |-> Par("", DTi, FALSE, Null, NoLim, <<>>, "none") @@ [cls |-> [wire |-> "_pc"], via |-> "subclass"],
+               ph |-> Par("_ph", DTf, FALSE, Null, NoLim, <<>>, "none") @@ [cls |-> [ro |-> TRUE], via |-> "cfg"]]]
+  ELSE IF n = 4
+  THEN [m |-> [pd |-> Par("_pd", DTi, FALSE, Null, NoLim, <<>>, "none") @@ [initvia |-> "value"],
+               pe |-> Par("_pe", DTe, FALSE, Null, NoLim, <<>>, "none") @@ [initvia |-> "bare"]]]
+  ELSE [m |-> [pg |-> Par("_pg", DTs, FALSE, Null, NoLim, <<>>, "none") @@ [initvia |-> "cfgvalue"],
+               pi |-> Par("_pi", DTf5, FALSE, Null, NoLim, <<>>, "none") @@ [cls |-> [hi |-> 8], via |-> "subclass"]]]
+(* K: a constant of a datatype whose transported form is not the internal one *)
+ShapeK(d) == [m |-> [pa |-> Par("_pa", DTi, FALSE, Null, NoLim, <<>>, "none"),
+                     pk |-> Par("_pk", DTname[d], TRUE, OtherOf(DTname[d]), NoLim, <<>>, "none")]]
 (* D: a hook on a struct sees the merged value *)
 ShapeD == [m |-> [pa |-> Par("_pa", DTst, FALSE, Null, NoLim,
                              <<[at |-> "D", raise |-> <<St(Num(5), Num(2))>>, stop |-> <<>>]>>, "none")]]
 
-(* shapes are named by tuples: <<"A", d>>, <<"B", d, drv>>, <<"C", d, limitkind, hookset, drv, level>>, <<"D">> *)
+(* shapes are named by tuples: <<"A", d>>, <<"B", d, drv>>, <<"E", n>>, <<"C", d, limitkind, hookset, drv, level>>, <<"D">> *)
 IdsOf(fam) ==
   CASE fam = "A" -> {<<"A", d>> : d \in DOMAIN DTname}
     [] fam = "A1" -> {<<"A", d>> : d \in {"e", "s", "a"}}
     [] fam = "B" -> {<<"B", d, drv>> : d \in DOMAIN DTname, drv \in {"same", "fixed", "absent"}}
+    [] fam = "E" -> {<<"E", n>> : n \in 1 .. 5}
+    [] fam = "K" -> {<<"K", "sc">>, <<"K", "bl">>}
     [] fam = "C1" -> {<<"C", "f", "minmax", "h0", "none", "X">>, <<"C", "f", "minmax", "h1", "none", "X">>,
                       <<"C", "f", "limits", "h2", "none", "X">>,
                       <<"C", "f", "minmax", "h2", "none", "M">>, <<"C", "f", "limits", "h1", "none", "M">>,
@@ -478,6 +572,8 @@ ShapeOf(id) ==
     [] id[1] = "B" -> ShapeB(id[2], id[3])
     [] id[1] = "C" -> ShapeC(id[2], id[3], id[4], id[5], id[6])
     [] id[1] = "D" -> ShapeD
+    [] id[1] = "E" -> ShapeE(id[2])
+    [] id[1] = "K" -> ShapeK(id[2])
 
 Req(act, mod, name, payload) == [act |-> act, mod |-> mod, name |-> name, payload |-> payload]
 (* requests: for every accessible every payload of its catalogue under its wire name (or  *)
@@ -487,10 +583,12 @@ AccReqs(sh, m, a) ==
   LET acc == sh[m][a]
       nm == IF acc.wire = "" THEN a ELSE acc.wire
   IN IF acc.kind = "param"
-     THEN {Req("change", m, nm, p) : p \in (IF acc.islimit /\ acc.dt.t # "tuple" THEN LimCat
+     THEN {Req("change", m, nm, p) : p \in (IF acc.islimit /\ acc.dt.t # "limits" THEN LimCat
                                             ELSE IF acc.ro \/ acc.wire = "" THEN Short(acc.dt) ELSE Cat(acc.dt))}
           \cup {Req("do", m, nm, Null)}
-          \cup (IF acc.const = Null THEN {Req("read", m, nm, Null)} ELSE {})   \* reading a constant: C06
+          \cup {Req("read", m, nm, Null)}
+          \cup (IF "cls" \in DOMAIN acc /\ "wire" \in DOMAIN acc.cls      \* the name the class gave, before the configuration
+                THEN {Req("change", m, acc.cls.wire, CHOOSE p \in Short(acc.dt) : TRUE), Req("read", m, acc.cls.wire, Null)} ELSE {})
           \cup (IF acc.wire # a /\ acc.wire # ""
                 THEN {Req("change", m, a, CHOOSE p \in Short(acc.dt) : TRUE), Req("read", m, a, Null)} ELSE {})
      ELSE {Req("do", m, nm, p) : p \in (IF acc.arg = NoDt THEN {Null, Num(1)} ELSE Cat(acc.arg))}
@@ -500,7 +598,12 @@ ReqsOf(sh) ==
   UNION {UNION {AccReqs(sh, m, a) : a \in DOMAIN sh[m]} : m \in DOMAIN sh}
   \cup {Req(act, mod, nm, IF act = "change" THEN Num(3) ELSE Null) :
           act \in {"change", "read", "do"}, mod \in {"zz", "h"}, nm \in {"_pa", "target"}}
-  \cup {Req(act, "m", "nope", IF act = "change" THEN Num(3) ELSE Null) : act \in {"change", "read", "do"}}
+  \* unknown names; optional accessibles nobody implemented (popt, copt) and an accessible a subclass removed
+  \* (prem = None): gamma puts them into every generated class
+  \cup {Req(act, "m", nm, IF act = "change" THEN Num(3) ELSE Null) :
+          act \in {"change", "read", "do"}, nm \in {"nope", "_popt", "_copt", "_prem"}}
+  \* the bare module specifier: target for change, value for read
+  \cup {Req("change", m, "", p) : m \in DOMAIN sh, p \in {Num(3), Num(9), SAb}} \cup {Req("read", m, "", Null) : m \in DOMAIN sh}
 
 CONSTANT Families
 Init == \E id \in ShapeIds(Families) : InitWith(ShapeOf(id))
